@@ -1,2 +1,55 @@
-(* C06 *)
-From Grex Require Import Base.Str.
+(* C06 — verbose mode, capturing groups and escaping are presentation only. *)
+From Grex Require Import Base.Str Model.Config Model.Cluster Model.Dfa Model.Expr Model.Print
+  Model.Pipeline.
+From Grex Require Import Proofs.Lang Proofs.Spec Proofs.PrintShape Proofs.PropsGlue.
+
+(* c1 and c2 may differ in f_verbose, f_cap, f_esc, f_sur, f_colour, f_no_start, f_no_end (and
+   the self-check outcomes may differ): the two expressions — which need not be equal, the
+   construction reads f_esc — denote the same language, for any denotation of literals and
+   classes *)
+Theorem C06_language : forall (lit cls : cp -> cp -> Prop) c1 c2 db sc1 sc2 ws e1 e2,
+  (f_digit c1 = f_digit c2 /\ f_non_digit c1 = f_non_digit c2 /\
+   f_space c1 = f_space c2 /\ f_non_space c1 = f_non_space c2 /\
+   f_word c1 = f_word c2 /\ f_non_word c1 = f_non_word c2 /\
+   f_ci c1 = f_ci c2) /\
+  f_rep c1 = f_rep c2 /\ min_rep c1 = min_rep c2 /\ min_len c1 = min_len c2 ->
+  ws <> [] ->
+  oracle_ok db (normalise c1 db ws) ->
+  no_merge (grapheme_clusters c1 db (normalise c1 db ws)) = true ->
+  Pipeline.final_expr c1 (grapheme_clusters c1 db (normalise c1 db ws)) sc1 = Some e1 ->
+  Pipeline.final_expr c2 (grapheme_clusters c2 db (normalise c2 db ws)) sc2 = Some e2 ->
+  forall u, (u <> [] \/ K4 (normalise c1 db ws) = false) ->
+    (L_expr lit cls e1 u <-> L_expr lit cls e2 u).
+Proof. exact construction_lang_presentation. Qed.
+
+(* the presentation settings do not reach the grapheme clusters *)
+Theorem C06_clusters : forall c1 c2 db tcs,
+  (f_digit c1 = f_digit c2 /\ f_non_digit c1 = f_non_digit c2 /\
+   f_space c1 = f_space c2 /\ f_non_space c1 = f_non_space c2 /\
+   f_word c1 = f_word c2 /\ f_non_word c1 = f_non_word c2 /\
+   f_ci c1 = f_ci c2) /\
+  f_rep c1 = f_rep c2 /\ min_rep c1 = min_rep c2 /\ min_len c1 = min_len c2 ->
+  grapheme_clusters c1 db tcs = grapheme_clusters c2 db tcs.
+Proof. exact grapheme_clusters_presentation. Qed.
+
+(* verbose mode: the output starts with the flag group (?x) / (?ix), unindented *)
+Theorem C06_verbose_flag : forall isd c e,
+  f_verbose c = true -> f_colour c = false ->
+  starts_with (if f_ci c then [40; 63; 105; 120; 41]%N else [40; 63; 120; 41]%N)
+              (regexp_str isd c e) = true.
+Proof. exact regexp_str_verbose_flag. Qed.
+
+(* with escaping enabled the output of the pipeline is pure ASCII *)
+Theorem C06_ascii_when_escaped : forall isd c db sc ws s,
+  f_esc c = true -> build isd c db sc ws = Some s -> Forall (fun x => (x < 128)%N) s.
+Proof. exact build_ascii. Qed.
+
+Theorem C06_ascii_when_escaped_expr : forall isd c d e,
+  f_esc c = true -> expr_from c d = Some e -> Forall (fun x => (x < 128)%N) (regexp_str isd c e).
+Proof. exact regexp_str_from_ascii. Qed.
+
+Print Assumptions C06_language.
+Print Assumptions C06_clusters.
+Print Assumptions C06_verbose_flag.
+Print Assumptions C06_ascii_when_escaped.
+Print Assumptions C06_ascii_when_escaped_expr.
